@@ -1,9 +1,16 @@
 #!/bin/bash
-# Builds the harness offline from files on disk and validates the reference implementations.
+# Builds the harness offline from files on disk and validates the reference implementations (oracles)
+# against their published vectors. Fetches nothing.
 set -e
 ROOT="$(cd "$(dirname "${BASH_SOURCE[0]}")" && pwd)"
 export CARGO_NET_OFFLINE=true
 cd "$ROOT/harness"
-cargo build --release --bin vcheck 2>&1 | grep -E "^error|Finished|Compiling bsvverif" || true
+cargo build --release --bin vcheck 2>&1 | grep -E "^error|Finished" || true
 test -x target/release/vcheck
+# oracle self-test: NIST / RFC / BIP32 / FIPS-197 vectors, python hashlib differential (skipped if python3 is absent),
+# the interpreter model's hand-computed table
+cargo test --release --lib refimpl 2>&1 | grep -E "^test result|FAILED|panicked|^error" | head -20
+cargo test --release --lib refimpl 2>&1 | grep -q "test result: ok"
+# libFuzzer targets for the thorough tiers (nightly); not needed by the quick tier, so a failure here is not fatal
+( cargo +nightly fuzz build >/dev/null 2>&1 && echo "fuzz targets built" ) || echo "note: fuzz targets not built (thorough tiers will build them on demand)"
 echo "setup ok"
